@@ -64,6 +64,12 @@ fn c13_call_contract_p64() {
     c13_call_contract(64)
 }
 
+// HARNESS props=C13 tier=quick profile=gw_c13big shape="payload 1030 bytes (all symbolic)"
+#[kani::proof]
+fn c13_call_contract_p1030() {
+    c13_call_contract(1030)
+}
+
 // ------------------------------------------------------------------ C02: consumption and queries
 fn any_message(env: &Env) -> Message {
     Message {
@@ -178,4 +184,26 @@ fn c02_queries_agree() {
     kani::assert(model::storage_writes() == w0 && model::events_len() == 0, "VERIF:C02:queries change nothing");
     kani::cover!(appr, "VERIF:reach:approved");
     kani::cover!(exec, "VERIF:reach:executed");
+}
+
+// HARNESS props=C02 tier=quick profile=gw_c02 mode=strict shape="conforming consumption: approved for exactly this message, caller authorised — must succeed without any trap"
+#[kani::proof]
+fn c02_consume_conforming_strict() {
+    let env = Env::default();
+    let msg = any_message(&env);
+    let caller = msg.contract_address.clone();
+    model::set_auth(&caller, true);
+    let h_msg = spec_msg_hash(&env, &msg);
+    seed_status_if(true, &msg.source_chain, &msg.message_id, 1, &h_msg);
+    let ok = model::with_contract(&gw(), || {
+        <AxelarGateway as AxelarGatewayMessagingInterface>::validate_message(
+            env.clone(), caller.clone(), msg.source_chain.clone(), msg.message_id.clone(), msg.source_address.clone(), msg.payload_hash.clone())
+    });
+    kani::assert(ok, "VERIF:C02:an approved, unexecuted, exactly matching message is consumed by the contract it names");
+    let again = model::with_contract(&gw(), || {
+        <AxelarGateway as AxelarGatewayMessagingInterface>::validate_message(
+            env.clone(), caller.clone(), msg.source_chain.clone(), msg.message_id.clone(), msg.source_address.clone(), msg.payload_hash.clone())
+    });
+    kani::assert(!again, "VERIF:C02:consuming a message succeeds exactly once");
+    kani::cover!(true, "VERIF:reach:consumed once");
 }
